@@ -87,6 +87,13 @@ where R: Ring, for<'x> &'x R: RingOps<R> {
         KhComplex { inner, ht, deg_shift, reduced, canon_cycles }
     }
 
+    /// Verification entry: wraps an explicitly given (bi)graded complex of Khovanov generators,
+    /// so that the homology / bigrading routines can be driven with synthetic complexes.
+    #[cfg(yui_verif)]
+    pub fn verif_from_parts(inner: ChainComplex<KhGen, R>, ht: (R, R), deg_shift: (isize, isize), reduced: bool) -> Self { 
+        Self::new_impl(inner, ht, deg_shift, reduced, vec![])
+    }
+
     pub fn ht(&self) -> &(R, R) { 
         &self.ht
     }
